@@ -10,11 +10,10 @@ echo "--- demo on modified tree"; PYTHONPATH=$WT timeout 900 /venv/bin/python _s
 git apply -R _seed/patch.diff || { echo 'cannot reverse patch'; exit 2; }
 echo "--- demo on clean tree"; PYTHONPATH=$WT timeout 900 /venv/bin/python _seed/demo.py > /tmp/seed_$P.clean.out 2>&1; echo "exit $?"; tail -2 /tmp/seed_$P.clean.out
 git apply _seed/patch.diff
-echo "--- checks on /repo with patch"
-git -C /repo status --porcelain | grep -v '^??' && { echo "/repo dirty"; exit 2; }
-git -C /repo apply $WT/_seed/patch.diff || exit 2
+echo "--- checks on a scratch copy of /repo/dassh with the patch (fix agents read /repo concurrently)"
+SC=$(mktemp -d -p /dev/shm dsa-se-XXXX); cp -r /repo/dassh $SC/
+patch -p1 -s -f -d $SC -i $WT/_seed/patch.diff || { echo PATCHFAIL; rm -rf $SC; exit 2; }
 for p in $(echo $PROPS | tr , ' '); do
-  /verif/check $p --tier quick --repo /repo > /tmp/seed_$P.$p.out 2>&1; echo "$p exit $?"; grep -E 'VIOLATED|ANALYSIS' /tmp/seed_$P.$p.out | head -4
+  /verif/check $p --tier quick --repo $SC > /tmp/seed_$P.$p.out 2>&1; echo "$p exit $?"; grep -E 'VIOLATED|ANALYSIS' /tmp/seed_$P.$p.out | head -4
 done
-git -C /repo checkout -- .
-rm -rf /repo/.dsa-evidence
+rm -rf $SC
